@@ -429,6 +429,19 @@ func checkBlock(ch *sim.Chain, b types.Block, bs consensus.V1BlockSupplement, la
 		}
 		return nil
 	}
+	for _, t := range b.Transactions {
+		switch n := len(t.SiacoinInputs); {
+		case n > 64:
+			rec.Label("shape:v1-transaction-with->64-siacoin-inputs")
+		case n > 16:
+			rec.Label("shape:v1-transaction-with-17..64-siacoin-inputs")
+		}
+	}
+	for _, t := range b.V2Transactions() {
+		if len(t.SiacoinInputs) > 64 {
+			rec.Label("shape:v2-transaction-with->64-siacoin-inputs")
+		}
+	}
 	// (1)+(2) purity and determinism
 	first := run(ch, b, bs)
 	firstID := b.ID()
